@@ -576,7 +576,7 @@ enum Case {
 }
 
 fn explore(ctx: &mut Ctx) {
-    let depth = ctx.tier.pick(4, 7);
+    let depth = ctx.tier.pick(5, 7);
     let mut job = 0u64;
     for &universe in &[0usize, 1, 2, 5, 8, 70] {
         for capacity in 0..=4usize {
@@ -599,7 +599,7 @@ fn explore(ctx: &mut Ctx) {
             }
         }
     }
-    r_bfs(ctx, ctx.tier.pick(4, 7));
+    r_bfs(ctx, ctx.tier.pick(5, 7));
 }
 
 fn replay(ctx: &mut Ctx, v: &Value) {
